@@ -242,3 +242,82 @@ M("C10", "generator-extra-char-class", "ledger/pin.py",
 M("C10", "abort-swallows-and-commits-later", "ledger/protocol.py",
   "            except Exception as e:\n                self.pin.abort_change()",
   "            except Exception as e:\n                self.pin.commit_change()")
+
+# ---- C02
+M("C03", "outpoint-upper-bound-dropped", "comm/protocol.py",
+  '            and message["outpointValue"] <= 0xffffffffffffffff\n', '')
+M("C02", "len-message-check-dropped-hash", "comm/protocol.py",
+  '            what in ["any", "hash"]\n            and len(message) == 1\n',
+  '            what in ["any", "hash"]\n')
+M("C02", "isinstance-int", "comm/utils.py",
+  "    return name in mp and \\\n           type(mp[name]) == tp",
+  "    return name in mp and \\\n           isinstance(mp[name], tp)")
+M("C02", "version-check-after-command", "comm/protocol.py",
+  '        if self.VERSION_KEY in request and request[self.VERSION_KEY] != self.VERSION:\n            return self._wrong_version()\n\n        command = request[self.COMMAND_KEY]\n        self.logger.debug("Cmd: %s", command)\n        if command not in self._known_commands:\n            return self._command_unknown()',
+  '        command = request[self.COMMAND_KEY]\n        self.logger.debug("Cmd: %s", command)\n        if command not in self._known_commands:\n            return self._command_unknown()\n\n        if self.VERSION_KEY in request and request[self.VERSION_KEY] != self.VERSION:\n            return self._invalid_request()')
+M("C02", "v1-wrong-version-code", "comm/protocol_v1.py",
+  "    ERROR_CODE_WRONG_VERSION = -666", "    ERROR_CODE_WRONG_VERSION = -2")
+M("C02", "brothers-length-check-dropped", "comm/protocol.py",
+  '            or len(request["brothers"]) != len(request["blocks"])\n', '')
+M("C02", "ud-value-size-17", "comm/protocol.py",
+  "    SIGNER_HBT_UD_VALUE_SIZE = 16  # bytes", "    SIGNER_HBT_UD_VALUE_SIZE = 17  # bytes")
+M("C02", "empty-proof-allowed", "comm/protocol.py",
+  '            or len(auth["receipt_merkle_proof"]) == 0\n', '')
+M("C03", "auth-optional-for-tx", "ledger/protocol.py",
+  "            auth_validation = self._validate_auth(request, mandatory=True)",
+  "            auth_validation = self._validate_auth(request, mandatory=False)")
+M("C02", "keyid-six-elements", "comm/bip32.py",
+  "        if nelements is not None and len(self._elements) != nelements:",
+  "        if nelements is not None and len(self._elements) < nelements:")
+M("C02", "hash-length-any", "comm/protocol.py",
+  '            and has_hex_field_of_length(message, "hash", 32)',
+  '            and has_nonempty_hex_field(message, "hash")')
+M("C02", "blocks-empty-allowed-upd", "comm/protocol.py",
+  '            or len(request["blocks"]) < self.MINIMUM_UPDATE_ANCESTOR_BLOCKS',
+  '            or len(request["blocks"]) < 0')
+
+# ---- C03
+M("C03", "revert-json-fix", "comm/server.py",
+  "            except (ValueError, RecursionError) as e:", "            except KeyError as e:")
+M("C03", "revert-command-type-fix", "comm/protocol.py",
+  "        if type(command) != str or command not in self._known_commands:",
+  "        if command not in self._known_commands:")
+M("C03", "revert-input-range-fix", "comm/protocol.py",
+  "        return input_index >= 0 and input_index <= 0xffffffff",
+  "        return input_index >= 0")
+M("C03", "revert-ws-size-fix", "comm/protocol.py",
+  "    MAX_WITNESS_SCRIPT_SIZE = 0xffff - 3 - 8  # bytes",
+  "    MAX_WITNESS_SCRIPT_SIZE = 0xffff  # bytes")
+M("C03", "revert-brothers-len-fix", "comm/protocol.py",
+  "        if not all(type(item) == list and len(item) <= 0xff\n",
+  "        if not all(type(item) == list and len(item) <= 0xffff\n")
+M("C03", "revert-sort-fix", "ledger/hsm2dongle.py",
+  "        except ValueError as e:\n            self.logger.error(\"While computing brothers' hashes: %s\", str(e))",
+  "        except KeyError as e:\n            self.logger.error(\"While computing brothers' hashes: %s\", str(e))")
+M("C03", "revert-overflow-metadata-fix", "ledger/hsm2dongle.py",
+  "        except (ValueError, OverflowError) as e:\n            self.logger.error(\"Computing %s metadata",
+  "        except ValueError as e:\n            self.logger.error(\"Computing %s metadata")
+M("C03", "unicode-branch-removed", "comm/server.py",
+  "        except UnicodeDecodeError:", "        except UnicodeTranslateError:")
+M("C03", "int-conversion-on-client-field", "ledger/protocol.py",
+  "                    input_index=msg[\"input\"],", "                    input_index=int(str(msg[\"input\"])[:9]) if msg[\"input\"] < 10**8 else msg[\"outpointValue\"],")
+M("C03", "keyid-validation-narrowed", "comm/protocol.py",
+  "        except ValueError as e:\n            self.logger.info(\"Invalid Key ID: %s\", str(e))",
+  "        except KeyError as e:\n            self.logger.info(\"Invalid Key ID: %s\", str(e))")
+M("C03", "proof-valueerror-uncaught", "ledger/hsm2dongle.py",
+  "        except ValueError as e:\n            self.logger.error(\"Sign: invalid receipts merkle proof: %s\", str(e))",
+  "        except KeyError as e:\n            self.logger.error(\"Sign: invalid receipts merkle proof: %s\", str(e))")
+
+# ---- C12
+M("C12", "threading-server", "comm/server.py",
+  "            self.server = socketserver.TCPServer(\n",
+  "            self.server = socketserver.ThreadingTCPServer(\n")
+M("C12", "handle-in-helper-thread", "comm/server.py",
+  "            handler = _RequestHandler(self.server.protocol, self.server.logger)\n            handler.handle(self.client_address[0], self.rfile, self.wfile)",
+  "            handler = _RequestHandler(self.server.protocol, self.server.logger)\n            import io as _io\n            data = self.rfile.readline()\n            out = _io.BytesIO()\n            th = threading.Thread(target=lambda: (handler.handle(self.client_address[0], _io.BytesIO(data), out), self.request.sendall(out.getvalue()), self.request.close()))\n            th.start()\n            import time as _t\n            _t.sleep(0.001)\n            self.request = self.request.dup()")
+M("C12", "shared-reply-buffer", "comm/server.py",
+  "            output = json.dumps(response, sort_keys=True)\n            success = self._reply(wfile, output)\n            if success:\n                self.logger.info(\"=> [%s]: %s\", client_address, output)\n\n    def _reply",
+  "            _RequestHandler._last = getattr(_RequestHandler, '_last', None) or json.dumps(response, sort_keys=True)\n            output = _RequestHandler._last if len(data) % 7 == 0 else json.dumps(response, sort_keys=True)\n            _RequestHandler._last = json.dumps(response, sort_keys=True)\n            success = self._reply(wfile, output)\n            if success:\n                self.logger.info(\"=> [%s]: %s\", client_address, output)\n\n    def _reply")
+M("C12", "forking-free-reuse-dongle-per-thread", "comm/server.py",
+  "class _TCPServerRequestHandler(socketserver.StreamRequestHandler):\n    def handle(self):\n        try:",
+  "class _TCPServerRequestHandler(socketserver.StreamRequestHandler):\n    def handle(self):\n        threading.Thread(target=self._handle, daemon=True).start()\n        import time as _t\n        _t.sleep(0.02)\n\n    def finish(self):\n        pass\n\n    def _handle(self):\n        try:")
